@@ -250,7 +250,8 @@ class AsyncConnectionPool(AsyncRequestInterface):
                 # For any exception or cancellation we remove the request from
                 # the queue, and then re-assign requests to connections.
                 self._requests.remove(pool_request)
-                closing = self._assign_requests_to_connections()
+                closing = self._release_unused_connection(pool_request)
+                closing += self._assign_requests_to_connections()
 
             await self._close_connections(closing)
             raise exc from None
@@ -266,6 +267,29 @@ class AsyncConnectionPool(AsyncRequestInterface):
             ),
             extensions=response.extensions,
         )
+
+    def _release_unused_connection(
+        self, pool_request: AsyncPoolRequest
+    ) -> list[AsyncConnectionInterface]:
+        """
+        A request that gives up waiting just as it is assigned a newly created
+        connection leaves behind a connection that nobody is going to establish,
+        and that can never be reused, expire, or be evicted.
+
+        Remove such a connection from the pool, returning it so it can be closed.
+        """
+        connection = pool_request.connection
+        if (
+            connection is None
+            or connection not in self._connections
+            or connection.is_available()
+            or connection.is_idle()
+            or connection.is_closed()
+            or any(r.connection is connection for r in self._requests)
+        ):
+            return []
+        self._connections.remove(connection)
+        return [connection]
 
     def _assign_requests_to_connections(self) -> list[AsyncConnectionInterface]:
         """
